@@ -34,7 +34,7 @@ ASSUMPTIONS = [
     "angular_momentum returns the scalar np.nan when an input is unset and a 3-vector otherwise; the model has "
     "one definition per component",
 ]
-MODEL_INDEPENDENT_OF_PROOFS = False
+MODEL_INDEPENDENT_OF_PROOFS = True   # the correspondence needs Gen/GenKinematics.v and Lib only
 
 KIN = ["t", "x", "y", "z", "E", "px", "py", "pz"]
 REQUIRED = {  # the property's statement, independent of the translator
@@ -145,11 +145,11 @@ def tolerance(m, V, val, comp=None):
         a, b = [("y", "pz", "z", "py"), ("z", "px", "x", "pz"), ("x", "py", "y", "px")][comp][:2], \
                [("y", "pz", "z", "py"), ("z", "px", "x", "pz"), ("x", "py", "y", "px")][comp][2:]
         mag = abs(_fr(V[a[0]]) * _fr(V[a[1]])) + abs(_fr(V[b[0]]) * _fr(V[b[1]]))
-        return EPS9 * mag + Fraction(1, 10**300)
+        return EPS9 * max(mag, Fraction(1, 10**30))
     if m in ("p_abs", "pT_abs", "mT", "proper_time", "mass_from_energy_momentum"):
         mag = abs(Fraction(val)) if val else Fraction(0)
         if mag == 0:   # value 0: absolute, on the scale of the inputs
-            mag = max([abs(_fr(V[a])) for a in REQUIRED[m] if math.isfinite(V[a])] + [Fraction(1, 10**300)])
+            mag = max([abs(_fr(V[a])) for a in REQUIRED[m] if math.isfinite(V[a])] + [Fraction(1, 10**30)])
         return EPS9 * mag * amp
     return EPS9 * max(Fraction(1), abs(Fraction(val))) * amp
 
@@ -594,25 +594,55 @@ Ltac zeros :=
   | |- context [0 * 0 + 0 * 0] => rewrite ?sqrt_zero3, ?sqrt_zero2, ?sqrt_beam
   | _ => idtac
   end.
+Ltac dec_lt a b :=
+  let H := fresh in
+  first [ assert (H : a < b) by lra; rewrite (Rltb_true a b H); clear H
+        | assert (H : b <= a) by lra; rewrite (Rltb_false a b H); clear H
+        | interval_intro (a - b) with (i_prec 80) as H;
+          first [ rewrite (Rltb_true a b) by lra | rewrite (Rltb_false a b) by lra ]; clear H ].
+Ltac dec_le a b :=
+  let H := fresh in
+  first [ assert (H : a <= b) by lra; rewrite (Rleb_true a b H); clear H
+        | assert (H : b < a) by lra; rewrite (Rleb_false a b H); clear H
+        | interval_intro (a - b) with (i_prec 80) as H;
+          first [ rewrite (Rleb_true a b) by lra | rewrite (Rleb_false a b) by lra ]; clear H ].
+Ltac dec_eq a b :=
+  let H := fresh in
+  first [ assert (H : a < b) by lra; rewrite (Reqb_false_lt a b H); clear H
+        | assert (H : b < a) by lra; rewrite (Reqb_false_gt a b H); clear H
+        | assert (H : a = b) by lra; rewrite (Reqb_true a b H); clear H
+        | interval_intro (a - b) with (i_prec 80) as H;
+          first [ rewrite (Reqb_false_lt a b) by lra | rewrite (Reqb_false_gt a b) by lra
+                | rewrite (Reqb_true a b) by lra ]; clear H ].
 Ltac dec_cmp :=
   match goal with
-  | |- context [Rltb ?a ?b] =>
-      first [ rewrite (Rltb_true a b) by num | rewrite (Rltb_false a b) by num ]
-  | |- context [Rleb ?a ?b] =>
-      first [ rewrite (Rleb_true a b) by num | rewrite (Rleb_false a b) by num ]
-  | |- context [Reqb ?a ?b] =>
-      first [ rewrite (Reqb_false_lt a b) by num | rewrite (Reqb_false_gt a b) by num
-            | rewrite (Reqb_true_le a b) by num ]
+  | |- context [Rltb ?a ?b] => dec_lt a b
+  | |- context [Rleb ?a ?b] => dec_le a b
+  | |- context [Reqb ?a ?b] => dec_eq a b
   end.
 Ltac red1 :=
   cbv beta iota zeta delta
     [run angular_momentum_0 angular_momentum_1 angular_momentum_2 rapidity p_abs pT_abs phi theta
      pseudorapidity spacetime_rapidity proper_time mass_from_energy_momentum mT
      mass_from_energy_momentum_massless_pdg
-     is_nan orb andb negb einf eneg eadd esub emul emul_inf ediv esqr eabs esqrt elog eacos eatan2
-     elt ele egt ege eeq ein existsb atan2 close close_angle is_tag];
+     is_nan orb andb negb einf eneg eadd esub emul esqr eabs eatan2
+     elt ele egt ege eeq ein existsb close close_angle is_tag];
   zeros.
-Ltac ev := red1; repeat (dec_cmp; red1).
+Ltac is_val t :=
+  lazymatch t with Fin _ => idtac | PInf => idtac | NInf => idtac | NaN => idtac | Raise _ => idtac end.
+(* a conditional operation is unfolded only once its arguments are values: innermost first, no stuck matches *)
+Ltac step_op :=
+  match goal with
+  | |- context [esqrt ?a] => is_val a; let v := eval cbv beta iota delta [esqrt] in (esqrt a) in change (esqrt a) with v
+  | |- context [elog ?a] => is_val a; let v := eval cbv beta iota delta [elog] in (elog a) in change (elog a) with v
+  | |- context [eacos ?a] => is_val a; let v := eval cbv beta iota delta [eacos] in (eacos a) in change (eacos a) with v
+  | |- context [ediv ?a ?b] => is_val a; is_val b;
+      let v := eval cbv beta iota delta [ediv] in (ediv a b) in change (ediv a b) with v
+  | |- context [emul_inf ?s ?x] =>
+      let v := eval cbv beta iota delta [emul_inf einf negb] in (emul_inf s x) in change (emul_inf s x) with v
+  end.
+Ltac ev := red1; repeat (first [ dec_cmp | step_op ]; red1).
+Ltac real_ifs := cbv beta iota delta [atan2]; repeat (dec_cmp; cbv beta iota).
 Ltac fin_angle :=
   match goal with
   | |- 0 <= acos ?c <= PI /\ _ =>
@@ -627,7 +657,7 @@ Ltac solve_case :=
   lazymatch goal with
   | |- True => exact I
   | |- _ /\ _ => fin_angle
-  | |- _ <= _ => itv
+  | |- _ <= _ => real_ifs; itv
   end.
 Tactic Notation "ck" constr(n) constr(G) :=
   first [ assert G by (timeout 120 solve_case); idtac "C08CASE" n "OK" | idtac "C08CASE" n "BAD" ].
@@ -701,7 +731,7 @@ def correspondence(ctx, model_ok=True):
             if any(v is not None for v in c["values"].values()):
                 seen.add(g)
     # ---- (b) samples
-    n = 70 if ctx.quick else 900
+    n = 45 if ctx.quick else 900
     scases = []
     corpus = os.path.join(C.VERIF, "corpus", ID)
     if os.path.isdir(corpus):
